@@ -23,6 +23,7 @@ RULE = ("(a) every ordered tree shape with <=4 (quick) / <=5 (thorough) nodes x 
         "instances, 10 random renderings each (mixed closed/unclosed/CDATA, 7 fillers, padded data). A case = one "
         "rendering text; distinct by text fingerprint; non-trivial = has at least 2 nodes or a data leaf")
 ASSUMPTIONS = ["vf/oracles/ref_sgml.py is a correct strict reading of the OFX body syntax (self-tested at start-up)",
+               "4 % of the bodies are parsed right after a broken document (vf/core/hostile_history.py; not judged itself); trees up to 400 deep / 3000 wide; model trees also with emptied data elements",
                "UNSPECIFIED and not generated: whitespace between a start tag and <![CDATA[ or between ]]> and the end tag; '<' in data; padded CDATA data; lower-case tags"]
 LEVEL_TEXT = ("Exploration with an exhaustive core: every tree with up to 4/5 nodes in every per-node rendering is parsed by the real "
               "TreeBuilder and compared with the generator's tree and with an independent tokenizer; thousands of larger random and "
